@@ -73,3 +73,30 @@ func pickConfMethods(r interface{ Intn(int) int }, n int) []int {
 	}
 	return out
 }
+
+// algURIs is a dictionary of algorithm identifiers from XML-DSig, XML-Enc, XML-Enc 1.1 and RFC 4051/6931 ("xmldsig-more"),
+// supported here or not, plus near misses; used wherever a message names an algorithm.
+var algURIs = []string{
+	// digests
+	"http://www.w3.org/2000/09/xmldsig#sha1", "http://www.w3.org/2001/04/xmlenc#sha256", "http://www.w3.org/2001/04/xmlenc#sha512",
+	"http://www.w3.org/2001/04/xmldsig-more#sha224", "http://www.w3.org/2001/04/xmldsig-more#sha384", "http://www.w3.org/2001/04/xmlenc#sha384",
+	"http://www.w3.org/2001/04/xmldsig-more#md5", "http://www.w3.org/2001/04/xmlenc#ripemd160", "http://www.w3.org/2007/05/xmldsig-more#sha3-256",
+	"http://www.w3.org/2007/05/xmldsig-more#sha3-512", "http://www.w3.org/2001/04/xmldsig-more#sha256", "http://www.w3.org/2000/09/xmldsig#sha256",
+	// block encryption
+	"http://www.w3.org/2001/04/xmlenc#aes128-cbc", "http://www.w3.org/2001/04/xmlenc#aes192-cbc", "http://www.w3.org/2001/04/xmlenc#aes256-cbc", "http://www.w3.org/2001/04/xmlenc#tripledes-cbc",
+	"http://www.w3.org/2009/xmlenc11#aes128-gcm", "http://www.w3.org/2009/xmlenc11#aes192-gcm", "http://www.w3.org/2009/xmlenc11#aes256-gcm",
+	// key transport / wrap / agreement / mask generation
+	"http://www.w3.org/2001/04/xmlenc#rsa-1_5", "http://www.w3.org/2001/04/xmlenc#rsa-oaep-mgf1p", "http://www.w3.org/2009/xmlenc11#rsa-oaep",
+	"http://www.w3.org/2001/04/xmlenc#kw-aes128", "http://www.w3.org/2001/04/xmlenc#kw-aes256", "http://www.w3.org/2001/04/xmlenc#kw-tripledes", "http://www.w3.org/2001/04/xmlenc#dh",
+	"http://www.w3.org/2009/xmlenc11#ECDH-ES", "http://www.w3.org/2009/xmlenc11#mgf1sha1", "http://www.w3.org/2009/xmlenc11#mgf1sha256", "http://www.w3.org/2009/xmlenc11#mgf1sha512",
+	// signature methods
+	"http://www.w3.org/2000/09/xmldsig#rsa-sha1", "http://www.w3.org/2001/04/xmldsig-more#rsa-sha256", "http://www.w3.org/2001/04/xmldsig-more#rsa-sha384", "http://www.w3.org/2001/04/xmldsig-more#rsa-sha512",
+	"http://www.w3.org/2001/04/xmldsig-more#ecdsa-sha1", "http://www.w3.org/2001/04/xmldsig-more#ecdsa-sha256", "http://www.w3.org/2001/04/xmldsig-more#ecdsa-sha384", "http://www.w3.org/2001/04/xmldsig-more#ecdsa-sha512",
+	"http://www.w3.org/2000/09/xmldsig#dsa-sha1", "http://www.w3.org/2000/09/xmldsig#hmac-sha1", "http://www.w3.org/2001/04/xmldsig-more#rsa-md5", "http://www.w3.org/2001/04/xmldsig-more#rsa-sha224",
+	"http://www.w3.org/2007/05/xmldsig-more#sha256-rsa-MGF1", "http://www.w3.org/2007/05/xmldsig-more#rsa-pss", "http://www.w3.org/2021/04/xmldsig-more#eddsa-ed25519",
+	// canonicalisation and transforms
+	"http://www.w3.org/2001/10/xml-exc-c14n#", "http://www.w3.org/2001/10/xml-exc-c14n#WithComments", "http://www.w3.org/TR/2001/REC-xml-c14n-20010315", "http://www.w3.org/TR/2001/REC-xml-c14n-20010315#WithComments",
+	"http://www.w3.org/2006/12/xml-c14n11", "http://www.w3.org/2000/09/xmldsig#enveloped-signature", "http://www.w3.org/TR/1999/REC-xpath-19991116", "http://www.w3.org/TR/1999/REC-xslt-19991116", "http://www.w3.org/2000/09/xmldsig#base64",
+	// not identifiers at all
+	"", " ", "sha384", "SHA-384", "urn:unknown:alg", "http://www.w3.org/2001/04/xmldsig-more#SHA384", "http://www.w3.org/2001/04/xmldsig-more#sha384 ", "#sha384",
+}
